@@ -433,7 +433,7 @@ def run(ctx):
     # through the setter, and then only with the constant 0
     resetters = {"logic_var::clear_id", "time_out::start_query", "s_complex::make_query"}
     odd = []
-    for cp in sorted(callers["set_var_id"] - {E.path}):
+    for cp in sorted(callers["set_var_id"] - S.entry_family):
         b = cg.nodes[cp]
         for bb, t in b.calls():
             nm = t["callee"].get("resolved") or t["callee"].get("path") or ""
@@ -441,7 +441,7 @@ def run(ctx):
                 a = t["args"][0] if t["args"] else {}
                 if cp not in resetters or not (a.get("k") == "const" and a.get("int") == 0):
                     odd.append(cp)
-    ctx.ob("R3", "set_var_id-callers", E.path in callers["set_var_id"] and not odd, ctx.where(E),
+    ctx.ob("R3", "set_var_id-callers", bool(callers["set_var_id"] & S.entry_family) and not odd, ctx.where(E),
            "set_var_id is called from %s (only the clause loop may restore the counter; a reset to the constant 0 by "
            "clear_id / the query constructors is the designated reset)" % sorted(callers["set_var_id"]))
     okc = callers["clear_id"] <= {"time_out::start_query", "s_complex::make_query"} and callers["clear_id"]
